@@ -301,17 +301,15 @@ Lemma runner_cleanup_unfold f a x ok :
   runner_cleanup f a x ok =
   if ok then
     let '(l2, r2) := shutdown_app f a in
-    match r2 with
-    | Some e => (EPre :: l2, Some e)
-    | None => let '(l3, r3) := cleanup_app f a x in (EPre :: l2 ++ ESrv :: l3, r3)
-    end
+    let '(l3, r3) := cleanup_app f a x in
+    (EPre :: l2 ++ ESrv :: l3, match r3 with Some e => Some e | None => r2 end)
   else ctx_cleanup f (xt_exits x).
 Proof.
   unfold runner_cleanup, runner_cleanup_seq. cbn [run_phases].
-  rewrite phase_run_1, phase_run_2, phase_run_3, phase_run_4. unfold app_cleanup.
+  rewrite phase_run_1, phase_run_2, phase_run_3, phase_run_4. unfold app_cleanup, runner_cleanup_finally.
   destruct ok.
-  - destruct (shutdown_app f a) as [l2 r2]. destruct r2; cbn; auto.
-    destruct (cleanup_app f a x) as [l3 r3]. destruct r3; cbn; rewrite ?app_nil_r; auto.
+  - destruct (shutdown_app f a) as [l2 r2]. destruct (cleanup_app f a x) as [l3 r3].
+    destruct r2, r3; cbn; rewrite ?app_nil_r; auto.
   - cbn. destruct (ctx_cleanup f (xt_exits x)) as [l r]. destruct r; cbn; rewrite ?app_nil_r; auto.
 Qed.
 
@@ -324,12 +322,20 @@ Lemma runner_cleanup_sub f a x ok :
 Proof.
   rewrite runner_cleanup_unfold. destruct ok.
   - destruct (shutdown_app_quiet f a) as (Q1 & Q2). destruct (shutdown_app f a) as [l2 r2]. simpl in Q1, Q2.
-    destruct r2; simpl.
-    + rewrite Q1, Q2. split; auto. apply subseq_nil_l.
-    + destruct (cleanup_app_sub f a x) as (C1 & C2). destruct (cleanup_app f a x) as [l3 r3]. simpl in *.
-      rewrite entered_app, exited_app. simpl. rewrite Q1, Q2, C1. auto.
+    destruct (cleanup_app_sub f a x) as (C1 & C2). destruct (cleanup_app f a x) as [l3 r3]. simpl in *.
+    rewrite entered_app, exited_app. simpl. rewrite Q1, Q2, C1. auto.
   - destruct (ctx_cleanup f (xt_exits x)) as [l r] eqn:E. apply ctx_cleanup_spec in E as (E1 & E2 & _). simpl.
     rewrite E1, E2. split; auto. apply xt_exits_sub.
+Qed.
+
+(* exits contributed by the clean-up after a successful set-up: exactly those of the on_cleanup signal *)
+Lemma runner_cleanup_ok_exited f a x :
+  exited (fst (runner_cleanup f a x true)) = exited (fst (cleanup_app f a x)).
+Proof.
+  rewrite runner_cleanup_unfold.
+  destruct (shutdown_app_quiet f a) as (_ & Q2). destruct (shutdown_app f a) as [l2 r2]. cbn [fst] in Q2.
+  destruct (cleanup_app f a x) as [l3 r3]. cbn [fst].
+  change (EPre :: l2 ++ ESrv :: l3) with ([EPre] ++ l2 ++ [ESrv] ++ l3). rewrite !exited_app, Q2. reflexivity.
 Qed.
 
 (* ---------- the two entry points ---------- *)
@@ -418,38 +424,31 @@ Proof.
   rewrite Hf. destruct (shutdown_regs rec f t). simpl in *. auto.
 Qed.
 
-(* LIVENESS for flat applications: every failure choice except a raising on_shutdown receiver *)
-Lemma flat_exact f a : flat a = true -> no_shutdown_failure f ->
+(* LIVENESS for flat applications: EVERY failure choice *)
+Lemma flat_exact f a : flat a = true ->
   exited (via_apprunner f a) = rev (entered (via_apprunner f a)).
 Proof.
-  destruct a as [regs]. intros Hflat Hf. apply flat_regs_iff in Hflat.
+  destruct a as [regs]. intros Hflat. apply flat_regs_iff in Hflat.
   destruct (startup_app f (App regs)) as [[l1 x] r1] eqn:E.
   destruct (via_apprunner_parts f _ _ _ _ E) as (P1 & P2). rewrite P1, P2. clear P1 P2.
   rewrite startup_app_unfold in E.
   destruct (ctx_startup f (ctxs_of regs) []) as [[l0 ex] r0] eqn:E0.
   apply ctx_startup_spec in E0 as (E1 & E2 & _). simpl in E1. subst ex.
-  rewrite runner_cleanup_unfold.
   destruct r0.
-  - injection E as <- <- <-. simpl.
-    destruct (ctx_cleanup f (entered l0)) as [l r] eqn:Ec. apply ctx_cleanup_spec in Ec as (C1 & _). simpl. auto.
+  - injection E as <- <- <-. cbn [is_none]. rewrite runner_cleanup_unfold. cbn [xt_exits].
+    destruct (ctx_cleanup f (entered l0)) as [l r] eqn:Ec. apply ctx_cleanup_spec in Ec as (C1 & _). cbn [fst]. auto.
   - destruct (startup_regs (startup_app f) f regs) as [[l1' xs] r1'] eqn:Er.
     apply startup_regs_flat in Er as (-> & F1 & F2); auto.
     injection E as <- <- <-. rewrite entered_app, F1, app_nil_r.
     destruct r1'; cbn [is_none].
-    + cbn [xt_exits]. destruct (ctx_cleanup f (entered l0)) as [l r] eqn:Ec. apply ctx_cleanup_spec in Ec as (C1 & _). cbn [fst]. auto.
-    + assert (Hs : snd (shutdown_app f (App regs)) = None).
-      { change (shutdown_app f (App regs)) with (shutdown_regs (shutdown_app f) f regs). apply shutdown_regs_flat; auto. }
-      destruct (shutdown_app_quiet f (App regs)) as (Q1 & Q2).
-      destruct (shutdown_app f (App regs)) as [l2 r2]. cbn [fst snd] in Hs, Q1, Q2. subst r2.
-      rewrite cleanup_app_unfold. cbn [xt_exits xt_subs].
+    + rewrite runner_cleanup_unfold. cbn [xt_exits].
+      destruct (ctx_cleanup f (entered l0)) as [l r] eqn:Ec. apply ctx_cleanup_spec in Ec as (C1 & _). cbn [fst]. auto.
+    + rewrite runner_cleanup_ok_exited. rewrite cleanup_app_unfold. cbn [xt_exits xt_subs].
       destruct (ctx_cleanup f (entered l0)) as [l r] eqn:Ec. apply ctx_cleanup_spec in Ec as (C1 & C2 & _).
-      destruct r; cbn [fst].
-      * change (EPre :: l2 ++ ESrv :: l) with ([EPre] ++ l2 ++ [ESrv] ++ l).
-        rewrite !exited_app, Q2, C1. reflexivity.
-      * destruct (cleanup_regs_flat (cleanup_app f) f regs Hflat []) as (G1 & G2).
-        destruct (cleanup_regs (cleanup_app f) f regs []) as [l3 r3]. cbn [fst] in *.
-        change (EPre :: l2 ++ ESrv :: l ++ l3) with ([EPre] ++ l2 ++ [ESrv] ++ l ++ l3).
-        rewrite !exited_app, Q2, C1, G2, app_nil_r. reflexivity.
+      destruct r; cbn [fst]; auto.
+      destruct (cleanup_regs_flat (cleanup_app f) f regs Hflat []) as (G1 & G2).
+      destruct (cleanup_regs (cleanup_app f) f regs []) as [l3 r3]. cbn [fst] in *.
+      rewrite exited_app, C1, G2, app_nil_r. reflexivity.
 Qed.
 
 (* ---------- trees: liveness when nothing fails after a successful start-up ---------- *)
@@ -493,23 +492,18 @@ Proof.
 Qed.
 
 Lemma tree_exact f a :
-  no_shutdown_failure f -> no_teardown_failure f ->
+  no_teardown_failure f ->
   forall l x, startup_app f a = (l, x, None) ->
   entered (via_apprunner f a) = xt_started x /\
   exited (via_apprunner f a) = xt_cleanup_order x /\
   Permutation (exited (via_apprunner f a)) (entered (via_apprunner f a)).
 Proof.
-  intros Hs Ht l x E.
+  intros Ht l x E.
   destruct (via_apprunner_parts f a _ _ _ E) as (P1 & P2).
   destruct (startup_app_spec f a _ _ _ E) as (S1 & _).
   assert (X : exited (via_apprunner f a) = xt_cleanup_order x).
-  { rewrite P2. simpl is_none. rewrite runner_cleanup_unfold.
-    assert (Hsd := shutdown_app_fine f Hs a). unfold shutdown_fine in Hsd.
-    destruct (shutdown_app_quiet f a) as (Q1 & Q2).
-    destruct (shutdown_app f a) as [l2 r2]. simpl in Hsd, Q1, Q2. subst r2.
-    destruct (cleanup_app_full f Ht a _ _ E) as (C1 & C2).
-    destruct (cleanup_app f a x) as [l3 r3]. simpl in *.
-    rewrite exited_app. simpl. rewrite Q2. auto. }
+  { rewrite P2. cbn [is_none]. rewrite runner_cleanup_ok_exited.
+    destruct (cleanup_app_full f Ht a _ _ E) as (C1 & C2). exact C2. }
   rewrite X, P1, S1. repeat split; auto. apply xt_orders_perm.
 Qed.
 
@@ -551,26 +545,27 @@ Proof.
   rewrite P1, P2, S1. repeat split. apply runner_cleanup_sub. apply xt_orders_perm.
 Qed.
 
-Lemma flat_iff f a : flat a = true -> no_shutdown_failure f ->
+Lemma flat_iff f a : flat a = true ->
   exited (via_apprunner f a) = rev (entered (via_apprunner f a)) /\
   exited (fst (via_run_app f a)) = rev (entered (fst (via_run_app f a))) /\
   cleanup_iff_started (via_apprunner f a).
 Proof.
-  intros H1 H2. rewrite entry_points_agree. assert (H := flat_exact f a H1 H2). repeat split; auto.
+  intros H1. rewrite entry_points_agree. assert (H := flat_exact f a H1). repeat split; auto.
   intros c. rewrite H. apply perm_count. symmetry. apply Permutation_rev.
 Qed.
 
 Lemma tree_iff f a l x :
-  no_shutdown_failure f -> no_teardown_failure f -> startup_app f a = (l, x, None) ->
+  no_teardown_failure f -> startup_app f a = (l, x, None) ->
   exited (via_apprunner f a) = xt_cleanup_order x /\
   exited (fst (via_run_app f a)) = xt_cleanup_order x /\
   cleanup_iff_started (via_apprunner f a).
 Proof.
-  intros H1 H2 E. rewrite entry_points_agree. destruct (tree_exact f a H1 H2 _ _ E) as (T1 & T2 & T3).
+  intros H2 E. rewrite entry_points_agree. destruct (tree_exact f a H2 _ _ E) as (T1 & T2 & T3).
   repeat split; auto. intros c. apply perm_count; auto.
 Qed.
 
-(* witnesses for the three ways in which the unchanged code loses a started context *)
+(* witnesses for the two ways in which the unchanged code loses a started context; the third (a raising
+   on_shutdown receiver) is repaired in /repo 9bf51ac and kept as a regression example *)
 Definition w_startup_app : app := App [RSub (App [RCtx 1]); RSu 101].
 Definition w_startup_f : oracle := fails [SStartup 101].
 Definition w_cleanup_app : app := App [RCtx 1; RSub (App [RCtx 2])].
@@ -582,27 +577,32 @@ Lemma refuted_startup : ~ cleanup_iff_started (via_apprunner w_startup_f w_start
 Proof. intro H. specialize (H 1). vm_compute in H. discriminate. Qed.
 Lemma refuted_cleanup : ~ cleanup_iff_started (via_apprunner w_cleanup_f w_cleanup_app).
 Proof. intro H. specialize (H 2). vm_compute in H. discriminate. Qed.
-Lemma refuted_shutdown : ~ cleanup_iff_started (via_apprunner w_shutdown_f w_shutdown_app).
-Proof. intro H. specialize (H 1). vm_compute in H. discriminate. Qed.
+Lemma regression_shutdown :
+  via_apprunner w_shutdown_f w_shutdown_app =
+  [EEnter 1 true; ESite true; EPre; ESd 201 false; ESrv; EExit 1 true; ECleanupRaised (ErrStep (SShutdown 201))].
+Proof. vm_compute. reflexivity. Qed.
 
-(* order of the phases of a shutdown after a successful start-up: connections are told to close before
-   the on_shutdown receivers run, and are shut down before any cleanup context is torn down *)
+(* order of the phases of a shutdown after a successful start-up, WHATEVER raises: connections are told to
+   close before the on_shutdown receivers run, Server.shutdown runs after them (even when one raised) and
+   before any cleanup context is torn down *)
 Lemma phase_order f a l1 x :
-  startup_app f a = (l1, x, None) -> snd (shutdown_app f a) = None ->
-  exists l2 l3 r3,
-    via_apprunner f a = l1 ++ fst (site_phase f) ++ EPre :: l2 ++ ESrv :: l3 ++ raised_cleanup r3 /\
-    l2 = fst (shutdown_app f a) /\ cleanup_app f a x = (l3, r3) /\
+  startup_app f a = (l1, x, None) ->
+  exists l2 r2 l3 r3,
+    shutdown_app f a = (l2, r2) /\ cleanup_app f a x = (l3, r3) /\
+    via_apprunner f a = l1 ++ fst (site_phase f) ++ EPre :: l2 ++ ESrv :: l3 ++
+                        raised_cleanup (match r3 with Some e => Some e | None => r2 end) /\
     exited l1 = [] /\ exited l2 = [] /\ exited (via_apprunner f a) = exited l3.
 Proof.
-  intros E Hs. destruct (startup_app_spec f a _ _ _ E) as (_ & S2).
+  intros E. destruct (startup_app_spec f a _ _ _ E) as (_ & S2).
   destruct (shutdown_app_quiet f a) as (_ & Q2).
   unfold via_apprunner. rewrite E. cbn [is_none raised_setup]. rewrite runner_cleanup_unfold.
-  destruct (shutdown_app f a) as [l2 r2]. cbn [fst snd] in *. subst r2.
+  destruct (shutdown_app f a) as [l2 r2]. cbn [fst snd] in *.
   destruct (cleanup_app f a x) as [l3 r3].
-  exists l2, l3, r3. repeat split; auto.
+  exists l2, r2, l3, r3. repeat split; auto.
   - cbn [List.app]. rewrite <- !app_assoc. reflexivity.
   - cbn [List.app]. rewrite !exited_app, S2, exited_site. cbn [List.app].
-    change (exited (EPre :: (l2 ++ ESrv :: l3) ++ raised_cleanup r3)) with (exited ((l2 ++ ESrv :: l3) ++ raised_cleanup r3)).
+    change (exited (EPre :: (l2 ++ ESrv :: l3) ++ raised_cleanup (match r3 with Some e => Some e | None => r2 end)))
+      with (exited ((l2 ++ ESrv :: l3) ++ raised_cleanup (match r3 with Some e => Some e | None => r2 end))).
     rewrite !exited_app, Q2, exited_raised_cleanup. cbn [List.app].
     change (exited (ESrv :: l3)) with (exited l3). rewrite app_nil_r. reflexivity.
 Qed.
